@@ -14,7 +14,7 @@ if [ "$R" != "/repo" ]; then export VERIF_REPO=$R PYTHONPATH=$R; fi
 TAG=$(basename $R)
 for i in "$@"; do
   s=$(date +%s)
-  timeout ${PER_CHECK_TIMEOUT:-1500} ./check $i --tier $TIER --no-evidence > /tmp/try_seed_${TAG}_$i.log 2>&1; rc=$?
+  timeout ${PER_CHECK_TIMEOUT:-1500} ./check $i --tier $TIER --no-evidence ${JOBS:+--jobs $JOBS} > /tmp/try_seed_${TAG}_$i.log 2>&1; rc=$?
   e=$(date +%s)
   echo "$i exit=$rc wall=$((e-s))s :: $(grep -E "^\[$i" /tmp/try_seed_${TAG}_$i.log | tail -1 | cut -c1-200)"
   grep -E "^(VIOLATION|KNOWN-FINDING|HARNESS-ERROR)" /tmp/try_seed_${TAG}_$i.log | cut -c1-260 | head -3
